@@ -21,7 +21,17 @@ let get = function
   | M.BadOracle -> raise (Stop "bad-oracle")
   | M.RotateFuel -> raise (Stop "rotate-out-of-fuel")
 
+(* s<k>! : NewSize(k) of more than 2^48 slots was refused by the runtime (allocation is the
+   runtime's decision there: an oracle event, annotated by the harness).  Accepted only for such k. *)
+let alloc_refused s =
+  let n = String.length s in
+  n > 2 && s.[0] = 's' && s.[n - 1] = '!' &&
+  (let d = String.sub s 1 (n - 2) in
+   let b = "281474976710656" in
+   d.[0] <> '-' && (String.length d > String.length b || (String.length d = String.length b && d > b)))
+
 let parse_init s =
+  let s = if String.length s > 0 && s.[String.length s - 1] = '!' then String.sub s 0 (String.length s - 1) else s in
   if s = "z" then M.IZero else if s = "n" then M.INew
   else if String.length s > 1 && s.[0] = 's' then M.ISize (z_of_string (String.sub s 1 (String.length s - 1)))
   else failwith "bad init"
@@ -178,7 +188,10 @@ let eval_u_with ustep inp =
   with Stop s -> recs := s :: !recs);
   String.concat ";" (List.rev !recs)
 
-let eval inp = if is_u inp then eval_u_with M.ustep64 inp else eval_h inp
+let eval inp =
+  let (i, _) = parse_input inp in
+  if alloc_refused i then "panic:index"
+  else if is_u inp then eval_u_with M.ustep64 inp else eval_h inp
 
 (* the reference for U lines: the same plain list, of units *)
 let spec_u_plain inp out =
@@ -251,6 +264,7 @@ let spec_u inp out =
 
 let spec prop inp out =
   if prop <> "C07" then None
+  else if alloc_refused (fst (parse_input inp)) then None     (* no queue came into being; nothing is demanded *)
   else if is_u inp then spec_u inp out
   else spec_h inp out
 
